@@ -28,7 +28,8 @@ warnings.filterwarnings("ignore", message="'where' used without 'out'")
 # ---------------------------------------------------------------------------------------------------- documented box
 RHO_MAX = 1e-10        # decay of the Lévy characteristic function at half the last COS frequency
 STRIKE_FRACTION = 0.2  # |log(K/F)| <= 0.2 * (b-a)/2
-FFT_SD_MAX = 1.0       # FFT comparisons only when the total log-return standard deviation sqrt(c2(T)) <= 1
+FFT_M4_MAX = 1000.0    # FFT comparisons only when E[(S_T/S_0)^4] <= 1000 (fixed eta=0.25, alpha=1.5: aliasing for heavy right tails)
+FFT_TOL = 2e-7         # relative to spot
 RULE = (
     "models: zoo.make_exp with BS sigma in [0.05,0.5]; HEM/Merton/VG/CGMY from zoo.draw_params (HEM sigma 0..0.3, p .2...8, "
     "eta 5..40, lambda .5..8; Merton sigma 0..0.3, sigma_j .03...2, mu_j 0...1, lambda .5..8; VG sigma .08...3, nu .03...4, "
@@ -106,7 +107,12 @@ class Built:
             lo, hi = self.F * max(0.5, math.exp(-h)), self.F * min(1.5, math.exp(h))
             self.K = np.linspace(lo, hi, case["m"])
             case["K"] = [float(k) for k in self.K]
-        self.sd = float(math.sqrt(self.model.cumulant.cumulant2(T)))
+        try:
+            m4 = float(self.model.std_moment(4.0, T))
+        except Exception:
+            m4 = float("inf")
+        self.m4 = m4
+        self.fftbox = bool(self.inbox and np.isfinite(m4) and 0 < m4 <= FFT_M4_MAX)
         self.cls = dict(family=case["fam"], inbox=self.inbox, discounted=bool(self.r * T > 0))
 
 
@@ -195,7 +201,7 @@ def shape_probes(ctx, B, call, put, dig):
 def density_probe(ctx, B, dig):
     case, cos, T = B.case, B.cos, B.T
     x0 = math.log(B.spot)
-    npts = 4097
+    npts = 4097 if ctx.thorough else 2049
     u = np.linspace(x0 + B.a, x0 + B.b, npts)
     vals = np.concatenate([cos.density_log(T, u[i:i + 512]) for i in range(0, npts, 512)])
     du = u[1] - u[0]
@@ -208,9 +214,10 @@ def density_probe(ctx, B, dig):
                                                     "min": float(np.min(vals)), "mass": mass}, cls=B.cls)
         return
     # density(s) = density_log(log s)/s
-    s = np.exp(u[[1000, 2048, 3000]])
+    pick = [npts // 4, npts // 2, (3 * npts) // 4]
+    s = np.exp(u[pick])
     ds = cos.density(T, s)
-    if np.max(np.abs(ds * s - vals[[1000, 2048, 3000]])) > 1e-9:
+    if np.max(np.abs(ds * s - vals[pick])) > 1e-9:
         ctx.fail("oracle", "c18.cos.density", case, {"what": "density(s)*s != density_log(log s)", "s": s, "density": ds}, cls=B.cls)
     # digital/df = P(S > K) = tail mass of the same density (Simpson on an even number of intervals)
     K = B.K
@@ -268,13 +275,13 @@ def fft_probes(ctx, B, call, put):
     s1 = float(np.asarray(fft.call(float(K[i]), T)))
     if abs(s1 - fc[i]) > 1e-11 * spot:
         ctx.fail("oracle", "c18.fft.vector_scalar", case, {"scalar": s1, "vector": fc[i]}, cls=B.cls)
-    if B.inbox and B.sd <= FFT_SD_MAX:
+    if B.fftbox:
         err = np.max(np.abs(fc - call))
-        note("cos_fft", err, 1e-7 * spot)
-        if err > 1e-7 * spot:
+        note("cos_fft", err, FFT_TOL * spot)
+        if err > FFT_TOL * spot:
             j = int(np.argmax(np.abs(fc - call)))
             ctx.fail("oracle", "c18.cos_fft", case, {"what": "COS and FFT calls differ", "K": K[j], "cos": call[j], "fft": fc[j],
-                                                    "tol": 1e-7 * spot}, cls=B.cls)
+                                                    "tol": FFT_TOL * spot}, cls=B.cls)
     # C: the put composition
     out = ctx.lean(f"fftput {w(fc[i])} {w(np.exp(-B.model.r * T))} {w(B.model.spot * B.model.mean(T))} {w(K[i])}")
     if not close(fp[i], rd(out), scale=abs(fc[i]) + B.df * (B.F + K[i])):
@@ -298,7 +305,7 @@ def bs_probes(ctx, B, call, put, dig, fc):
         bad = "closed form vs COS (call/put)"
     elif np.max(np.abs(g - dig)) > 1e-9:
         bad = "closed form vs COS (digital)"
-    elif fc is not None and np.max(np.abs(c - fc)) > 1e-7 * spot:
+    elif fc is not None and B.fftbox and np.max(np.abs(c - fc)) > FFT_TOL * spot:
         bad = "closed form vs FFT"
     elif np.max(df * np.maximum(F - K, 0) - c) > 1e-12 * spot or np.max(c - df * F) > 1e-12 * spot or np.max(np.diff(c)) > 0 \
             or np.min(np.diff(c, 2)) < -1e-11 * spot or np.max(np.diff(g)) > 0 or np.min(g) < 0 or np.max(g) > df:
@@ -484,6 +491,8 @@ def coefficient_corr(ctx, B, rng):
 def run_case(ctx, case, rng, heavy=True):
     B = Built(case)
     ctx.branches[f"box:{case['fam']}:{'in' if B.inbox else 'out'}"] += 1
+    if B.inbox and not B.fftbox:
+        ctx.branches["box:fft_excluded_heavy_tail"] += 1
     call, put, fwdc, dig = exact_probes(ctx, B)
     composition_corr(ctx, B, call, put, fwdc, dig)
     coefficient_corr(ctx, B, rng)
